@@ -1,11 +1,345 @@
 //! Interpreter of parking_lot / dashmap programs and the collections iteration-order probe (C20).
-use serde_json::Value;
+//! The parking_lot replacement is driven through the raw lock_api traits, one call per operation.
+use crate::rec::log;
+use serde_json::{json, Value};
+use shuttle_dashmap_impl::DashMap;
+use shuttle_parking_lot_impl::lock_api::{
+    RawMutex as _, RawRwLock as _, RawRwLockDowngrade as _, RawRwLockUpgrade as _, RawRwLockUpgradeDowngrade as _,
+};
+use shuttle_parking_lot_impl::{RawMutex, RawRwLock};
+use std::sync::atomic::{AtomicI64, Ordering};
 use std::sync::Arc;
 
-pub fn run_main(_p: Arc<Value>) {
-    unimplemented!("locks programs")
+struct Shared {
+    rws: Vec<RawRwLock>,
+    data: Vec<AtomicI64>, // protected by the rwlock of the same index (plain atomics: no scheduling points)
+    mxs: Vec<RawMutex>,
+    maps: Vec<DashMap<i64, i64>>,
 }
 
-pub fn cmd_iter(_args: &[String]) {
-    unimplemented!("iteration-order probe")
+fn call(t: usize, pc: usize, k: &str, o: i64, v: i64) {
+    log(json!({"e":"call","t":t,"pc":pc,"k":k,"o":o,"v":v}));
+}
+fn ret(t: usize, pc: usize, k: &str, r: i64) {
+    log(json!({"e":"ret","t":t,"pc":pc,"k":k,"r":r}));
+}
+
+/// 0 = nothing, 1 = shared, 2 = upgradable, 3 = exclusive
+fn exec(sh: &Shared, mode: &mut [u8], mheld: &mut [bool], k: &str, o: i64, v: i64) -> i64 {
+    let ou = o as usize;
+    let b = |x: bool| if x { 1 } else { 0 };
+    unsafe {
+        match k {
+            "rd_lock" => {
+                sh.rws[ou].lock_shared();
+                mode[ou] = 1;
+                0
+            }
+            "rd_try" => {
+                let ok = sh.rws[ou].try_lock_shared();
+                if ok {
+                    mode[ou] = 1;
+                }
+                b(ok)
+            }
+            "rd_unlock" => {
+                sh.rws[ou].unlock_shared();
+                mode[ou] = 0;
+                0
+            }
+            "wr_lock" => {
+                sh.rws[ou].lock_exclusive();
+                mode[ou] = 3;
+                0
+            }
+            "wr_try" => {
+                let ok = sh.rws[ou].try_lock_exclusive();
+                if ok {
+                    mode[ou] = 3;
+                }
+                b(ok)
+            }
+            "wr_unlock" => {
+                sh.rws[ou].unlock_exclusive();
+                mode[ou] = 0;
+                0
+            }
+            "up_lock" => {
+                sh.rws[ou].lock_upgradable();
+                mode[ou] = 2;
+                0
+            }
+            "up_try" => {
+                let ok = sh.rws[ou].try_lock_upgradable();
+                if ok {
+                    mode[ou] = 2;
+                }
+                b(ok)
+            }
+            "up_unlock" => {
+                sh.rws[ou].unlock_upgradable();
+                mode[ou] = 0;
+                0
+            }
+            "upgrade" => {
+                sh.rws[ou].upgrade();
+                mode[ou] = 3;
+                0
+            }
+            "try_upgrade" => {
+                let ok = sh.rws[ou].try_upgrade();
+                if ok {
+                    mode[ou] = 3;
+                }
+                b(ok)
+            }
+            "downgrade" => {
+                sh.rws[ou].downgrade();
+                mode[ou] = 1;
+                0
+            }
+            "down_up" => {
+                sh.rws[ou].downgrade_upgradable();
+                mode[ou] = 1;
+                0
+            }
+            "down_to_up" => {
+                sh.rws[ou].downgrade_to_upgradable();
+                mode[ou] = 2;
+                0
+            }
+            "get" => sh.data[ou].load(Ordering::SeqCst),
+            "set" => {
+                sh.data[ou].store(v, Ordering::SeqCst);
+                0
+            }
+            "pm_lock" => {
+                sh.mxs[ou].lock();
+                mheld[ou] = true;
+                0
+            }
+            "pm_try" => {
+                let ok = sh.mxs[ou].try_lock();
+                if ok {
+                    mheld[ou] = true;
+                }
+                b(ok)
+            }
+            "pm_unlock" => {
+                sh.mxs[ou].unlock();
+                mheld[ou] = false;
+                0
+            }
+            // dashmap: one map per index; o = map * 16 + key
+            "dm_insert" => sh.maps[ou / 16].insert(o % 16, v).unwrap_or(-1),
+            "dm_get" => sh.maps[ou / 16].get(&(o % 16)).map(|r| *r.value()).unwrap_or(-1),
+            "dm_remove" => sh.maps[ou / 16].remove(&(o % 16)).map(|(_, x)| x).unwrap_or(-1),
+            "dm_contains" => b(sh.maps[ou / 16].contains_key(&(o % 16))),
+            "dm_len" => sh.maps[ou / 16].len() as i64,
+            "dm_alter" => {
+                sh.maps[ou / 16].alter(&(o % 16), |_, x| x + v);
+                0
+            }
+            "dm_clear" => {
+                sh.maps[ou / 16].clear();
+                0
+            }
+            "yield" => {
+                shuttle::thread::yield_now();
+                0
+            }
+            other => panic!("unknown locks op {other}"),
+        }
+    }
+}
+
+fn body(sh: &Shared, ix: usize, ops: &[Value]) {
+    let mut mode = vec![0u8; sh.rws.len()];
+    let mut mheld = vec![false; sh.mxs.len()];
+    let mut pc = 0usize;
+    let mut last_try_ok = true;
+    for op in ops {
+        pc += 1;
+        let k = op["k"].as_str().unwrap();
+        let o = op["o"].as_i64().unwrap_or(0);
+        let v = op["v"].as_i64().unwrap_or(0);
+        // operations marked "c" belong to the critical section opened by the latest try operation
+        if op["c"].as_i64() == Some(1) && !last_try_ok {
+            continue;
+        }
+        call(ix, pc, k, o, v);
+        let r = exec(sh, &mut mode, &mut mheld, k, o, v);
+        ret(ix, pc, k, r);
+        if k.ends_with("_try") || k == "try_upgrade" {
+            last_try_ok = r == 1;
+        }
+    }
+    for i in 0..mode.len() {
+        let k = match mode[i] {
+            1 => "rd_unlock",
+            2 => "up_unlock",
+            3 => "wr_unlock",
+            _ => continue,
+        };
+        pc += 1;
+        call(ix, pc, k, i as i64, 0);
+        let r = exec(sh, &mut mode, &mut mheld, k, i as i64, 0);
+        ret(ix, pc, k, r);
+    }
+    for i in 0..mheld.len() {
+        if mheld[i] {
+            pc += 1;
+            call(ix, pc, "pm_unlock", i as i64, 0);
+            let r = exec(sh, &mut mode, &mut mheld, "pm_unlock", i as i64, 0);
+            ret(ix, pc, "pm_unlock", r);
+        }
+    }
+    log(json!({"e":"fin","t":ix}));
+}
+
+pub fn run_main(p: Arc<Value>) {
+    let nrw = p["nrw"].as_u64().unwrap_or(0) as usize;
+    let nmx = p["nmx"].as_u64().unwrap_or(0) as usize;
+    let nmap = p["nmap"].as_u64().unwrap_or(0) as usize;
+    let tasks = p["tasks"].as_array().unwrap().clone();
+    let sh = Arc::new(Shared {
+        rws: (0..nrw).map(|_| RawRwLock::INIT).collect(),
+        data: (0..nrw).map(|_| AtomicI64::new(0)).collect(),
+        mxs: (0..nmx).map(|_| RawMutex::INIT).collect(),
+        maps: (0..nmap).map(|_| DashMap::new()).collect(),
+    });
+    log(json!({"e":"start"}));
+    let mut threads = vec![];
+    for t in 1..tasks.len() {
+        let ops = tasks[t]["ops"].as_array().unwrap().clone();
+        let sh2 = Arc::clone(&sh);
+        threads.push(shuttle::thread::spawn(move || body(&sh2, t, &ops)));
+    }
+    let ops0 = tasks[0]["ops"].as_array().unwrap().clone();
+    body(&sh, 0, &ops0);
+    for th in threads {
+        th.join().unwrap();
+    }
+}
+
+fn arg<'a>(args: &'a [String], name: &str) -> Option<&'a str> {
+    args.iter().position(|a| a == name).and_then(|i| args.get(i + 1)).map(|s| s.as_str())
+}
+
+/// `vwrap iter --history FILE`: apply an operation history (one JSON op per line: ins/rem k v, for a map and a set)
+/// to two separate instances of the deterministic HashMap / HashSet and print contents and iteration orders.
+/// The caller runs this in separate processes and compares the outputs.
+pub fn cmd_iter(args: &[String]) {
+    use deterministic_collections::{HashMap, HashSet};
+    let path = arg(args, "--history").expect("--history");
+    let text = std::fs::read_to_string(path).unwrap();
+    let ops: Vec<Value> = text.lines().filter(|l| !l.trim().is_empty()).map(|l| serde_json::from_str(l).unwrap()).collect();
+    let mut out = vec![];
+    for inst in 0..2 {
+        let mut m: HashMap<i64, i64> = if inst == 0 { HashMap::new() } else { HashMap::with_capacity(64) };
+        let mut s: HashSet<i64> = HashSet::new();
+        let mut results = vec![];
+        for op in &ops {
+            let k = op["k"].as_i64().unwrap_or(0);
+            let v = op["v"].as_i64().unwrap_or(0);
+            let r: i64 = match op["op"].as_str().unwrap() {
+                "ins" => m.insert(k, v).unwrap_or(-1),
+                "rem" => m.remove(&k).unwrap_or(-1),
+                "get" => m.get(&k).copied().unwrap_or(-1),
+                "len" => m.len() as i64,
+                "sins" => s.insert(k) as i64,
+                "srem" => s.remove(&k) as i64,
+                "shas" => s.contains(&k) as i64,
+                other => panic!("unknown history op {other}"),
+            };
+            results.push(r);
+        }
+        let morder: Vec<(i64, i64)> = m.iter().map(|(a, b)| (*a, *b)).collect();
+        let sorder: Vec<i64> = s.iter().copied().collect();
+        out.push(json!({"instance": inst, "results": results, "map_order": morder, "set_order": sorder}));
+    }
+    println!("{}", json!({"instances": out}));
+}
+
+// ---------------------------------------------------------------------------------------------
+// rand / lazy_static replacements: replayed identically, re-initialised per execution
+
+static LZ_INITS: std::sync::atomic::AtomicU64 = std::sync::atomic::AtomicU64::new(0);
+
+pub struct LzProbe(u64);
+
+shuttle_lazy_static_impl::lazy_static! {
+    static ref LZP: LzProbe = {
+        LZ_INITS.fetch_add(1, Ordering::SeqCst);
+        log(json!({"e":"lzinit"}));
+        LzProbe(shuttle_rand_0_8_inner::random::<u64>() % 1000)
+    };
+}
+
+fn rand_body() {
+    use shuttle_rand_0_8_inner::rngs::{SmallRng, StdRng};
+    use shuttle_rand_0_8_inner::{thread_rng, Rng, RngCore, SeedableRng};
+    let mut hs = vec![];
+    for t in 0..2u64 {
+        hs.push(shuttle::thread::spawn(move || {
+            let a: u64 = thread_rng().gen::<u64>() % 1000;
+            log(json!({"e":"val","t":t,"w":"thread_rng","v":a}));
+            shuttle::thread::yield_now();
+            let b = SmallRng::from_entropy().next_u32() % 1000;
+            log(json!({"e":"val","t":t,"w":"small","v":b}));
+            let c = StdRng::from_entropy().gen_range(0..1000u32);
+            log(json!({"e":"val","t":t,"w":"std","v":c}));
+            let d = shuttle_rand_0_8_inner::random::<u16>() % 1000;
+            log(json!({"e":"val","t":t,"w":"random","v":d}));
+            log(json!({"e":"val","t":t,"w":"lazy","v":LZP.0}));
+        }));
+    }
+    for h in hs {
+        h.join().unwrap();
+    }
+}
+
+fn vals(evs: &[String]) -> Vec<String> {
+    evs.iter().filter(|l| l.contains("\"e\":\"val\"") || l.contains("\"e\":\"lzinit\"")).cloned().collect()
+}
+
+/// `vwrap randcheck --iters N --seed S`: record N executions under the random scheduler, replay each from its schedule
+/// string, compare every value drawn through the rand replacement and the lazy static's value; count initialisations.
+pub fn cmd_randcheck(args: &[String]) {
+    use shuttle::scheduler::{RandomScheduler, ReplayScheduler};
+    let iters: usize = arg(args, "--iters").unwrap_or("50").parse().unwrap();
+    let seed: u64 = arg(args, "--seed").unwrap_or("1").parse().unwrap();
+    let mut cfg = shuttle::Config::new();
+    cfg.failure_persistence = shuttle::FailurePersistence::None;
+    crate::rec::reset_log();
+    let runner = shuttle::Runner::new(crate::rec::Recorder::new(RandomScheduler::new_from_seed(seed, iters), 1), cfg.clone());
+    runner.run(rand_body);
+    crate::rec::finish_exec_quiet();
+    let execs = crate::rec::take_done_full();
+    let mut mismatches = 0;
+    let mut lazy_bad = 0;
+    let mut distinct = std::collections::BTreeSet::new();
+    let mut examples = vec![];
+    for (evs, sched, _) in &execs {
+        let v = vals(evs);
+        if v.iter().filter(|l| l.contains("lzinit")).count() != 1 {
+            lazy_bad += 1;
+        }
+        for l in &v {
+            distinct.insert(l.clone());
+        }
+        crate::rec::reset_log();
+        let r = shuttle::Runner::new(crate::rec::Recorder::new(ReplayScheduler::new_from_encoded(sched), 1), cfg.clone());
+        r.run(rand_body);
+        crate::rec::finish_exec_quiet();
+        let rep = crate::rec::take_done_full();
+        if rep.len() != 1 || vals(&rep[0].0) != v {
+            mismatches += 1;
+            if examples.len() < 2 {
+                examples.push(json!({"schedule": sched, "recorded": v, "replayed": rep.first().map(|x| vals(&x.0))}));
+            }
+        }
+    }
+    println!("{}", json!({"execs": execs.len(), "replay_mismatch": mismatches, "lazy_init_not_once": lazy_bad,
+                          "distinct_lines": distinct.len(), "examples": examples}));
 }
